@@ -62,10 +62,13 @@ class Stepper:
                 k, v = self.run(s.body if self.truth(t) else s.orelse, env)
                 if k != "fall":
                     return k, v
-            elif isinstance(s, ast.Assign) and len(s.targets) > 1 and all(isinstance(t, ast.Name) for t in s.targets):
+            elif isinstance(s, ast.Assign) and len(s.targets) > 1 and all(isinstance(t, (ast.Name, ast.Subscript, ast.Attribute)) for t in s.targets):
                 val = subst(s.value, env)
                 for t in s.targets:
-                    env[t.id] = val
+                    if isinstance(t, ast.Name):
+                        env[t.id] = val
+                    else:
+                        self.effects.append(f"{norm(subst(t, env))} = {norm(val)}")
             elif isinstance(s, (ast.Assign, ast.AnnAssign)):
                 tg = s.targets[0] if isinstance(s, ast.Assign) else s.target
                 if isinstance(s, ast.Assign) and len(s.targets) != 1:
